@@ -17,7 +17,7 @@ from translators import t_reset
 # digest fields that must have their fresh-process value at the head of every file (K and R locations)
 STABLE = ["do_check", "if_changed", "lang_forced", "unc_off", "ifdef_over_whole_file", "frag", "frag_cols", "le_counts",
           "in_preproc", "preproc_ncnl_count", "changes", "al_cnt", "warned_tab", "pp_level", "bout_size", "qt_found", "qt_restore",
-          "list_empty", "opt_hash", "opt_nondefault", "output_trailspace", "spaces"]
+          "list_empty", "opt_hash", "opt_nondefault", "output_trailspace", "spaces", "sort_cache"]
 
 SPECIAL = {
     "empty.c": b"",
@@ -33,6 +33,10 @@ SPECIAL = {
     "pp_open.c": b"#if A\nint a;\n",
     "cmt_open_line.c": b"int a; // trailing \\\n",
     "tab_first.c": b"\tint a;\n",
+    # include names shared between files, one of them the file's own header (mod_sort_incl_import_prioritize_filename)
+    "alpha.cpp": b'#include "beta.h"\n#include "alpha.h"\n#include "gamma.h"\nint a;\n',
+    "beta.cpp": b'#include "gamma.h"\n#include "alpha.h"\n#include "beta.h"\nint b;\n',
+    "gamma.c": b'#include "beta.h"\n#include "gamma.h"\n#include "alpha.h"\nint c;\n',
 }
 
 
@@ -75,7 +79,9 @@ def run(ctx):
             pool.append((q, "corpus:" + os.path.relpath(p, common.REPO)))
         cfgs = {"defaults": sc.cfg(None, {}),
                 "sort_qt": sc.cfg(None, {"mod_sort_include": "true", "use_options_overriding_for_qt_macros": "true", "indent_with_tabs": "0",
-                                         "sp_inside_fparen": "force", "align_assign_span": "1"})}
+                                         "sp_inside_fparen": "force", "align_assign_span": "1"}),
+                "sort_prio": sc.cfg(None, {"mod_sort_include": "true", "mod_sort_incl_import_prioritize_filename": "true",
+                                           "mod_sort_incl_import_prioritize_angle_over_quotes": "true", "newlines": "auto"})}
         # --- single runs
         singles = {}
         jobs = []
@@ -125,7 +131,9 @@ def run(ctx):
             os.makedirs(d, exist_ok=True)
             local = []
             for i, p in enumerate(seq):
-                q = os.path.join(d, "%d_%s" % (i, os.path.basename(p)))
+                # same base name as in the single run (the include sorter compares include names with the file name)
+                os.makedirs(os.path.join(d, str(i)), exist_ok=True)
+                q = os.path.join(d, str(i), os.path.basename(p))
                 shutil.copyfile(p, q)
                 local.append(q)
             env = dict(os.environ)
